@@ -1,9 +1,10 @@
-(** C07 - Print-then-parse is the identity on values; JSON texts mean what RFC 8259 says. (first stage)
+(** C07 - Print-then-parse is the identity on values; JSON texts mean what RFC 8259 says.
     Model: Json/Write.v (mirrors jaq-json/src/write.rs), Json/Read.v (mirrors jaq-json/src/read.rs over a
     reference model of the hifijson lexer). *)
 From Coq Require Import List ZArith.
 From Coq Require Import Init.Byte.
-From JaqV Require Import Base.Bytes Val.Num Json.Write Json.Read Proofs.JsonString Proofs.DigitLaws Proofs.JsonInt.
+From JaqV Require Import Base.Bytes Val.Num Json.Write Json.Read Proofs.JsonString Proofs.DigitLaws Proofs.JsonInt Proofs.JsonValue.
+From JaqV Require Import Val.Val.
 Import ListNotations.
 
 (** text strings: for every byte string (control characters, quotes, backslashes, DEL, invalid UTF-8), what the
@@ -42,3 +43,27 @@ Print Assumptions integer_literal_roundtrip.
 Theorem json_integer_roundtrip : forall z, parse_num (show_num (int_or_big z)) = POk (int_or_big z) [].
 Proof. exact JsonInt.json_integer_roundtrip. Qed.
 Print Assumptions json_integer_roundtrip.
+
+(** ** whole values *)
+(** [rt v]: v is built from null, booleans, integers of any size (in the representation arithmetic gives them), text strings and
+    byte strings of any bytes, arrays, and objects - with any such values as keys - as the parser builds them: inserting the
+    entries one after the other appends each ([wf_obj]; every object with pairwise different keys is one, [distinct_keys_are_maps]).
+    The compact text the writer produces for such a value is read back as exactly that value. *)
+Theorem value_roundtrip : forall v, rt v -> parse_single (to_json v) = POk v [].
+Proof. exact JsonValue.json_value_roundtrip. Qed.
+Print Assumptions value_roundtrip.
+
+(** ... also inside a longer text, in front of nothing or of `,` `]` `}` `:` *)
+Theorem value_roundtrip_in_context : forall v rest, rt v -> stops rest ->
+  parse (S (length (to_json v))) (to_json v ++ rest) = POk v rest.
+Proof. exact JsonValue.json_value_roundtrip_rest. Qed.
+Print Assumptions value_roundtrip_in_context.
+
+Theorem integer_roundtrip_in_context : forall z rest, stops rest -> parse_num (Z_to_dec z ++ rest) = POk (int_or_big z) rest.
+Proof. exact JsonValue.parse_num_print_rest. Qed.
+Print Assumptions integer_roundtrip_in_context.
+
+Theorem distinct_keys_are_maps : forall o,
+  (forall pre k v post, o = pre ++ (k, v) :: post -> forall kv, In kv pre -> val_eqb k (fst kv) = false) -> wf_obj o.
+Proof. intros o H. apply (JsonValue.wf_distinct o []). exact H. Qed.
+Print Assumptions distinct_keys_are_maps.
